@@ -392,6 +392,13 @@ fn reply_part(rep: &Reporter, args: &Args) {
             let quote = ipv4_header(1, Ipv4Addr::new(10, 0, 0, 1), Ipv4Addr::new(192, 0, 2, 77), 0, 0);
             let mut q = quote.clone(); q.extend_from_slice(&[8, 0, 0, 0, 0, 0, 0]); // 27 bytes < 28
             cases.push(("v4 unreachable with a quote truncated inside the echo header".into(), false, icmp_msg(3, 1, [0; 4], &q), None, false));
+            // quote truncated inside the echo header *behind IP options* (1..7 bytes of it left): nothing to match
+            for opts in [4usize, 8, 20, 40] {
+                let k = r.range(1, 7) as usize;
+                let mut q = ipv4_header(1, Ipv4Addr::new(10, 0, 0, 1), Ipv4Addr::new(192, 0, 2, 77), opts, 8);
+                q.extend_from_slice(&echo_req(false, id, seq, &[])[..k]);
+                cases.push((format!("v4 unreachable, {} option bytes, quote truncated {} bytes into the echo header", opts, k), false, icmp_msg(3, 1, [0; 4], &q), None, false));
+            }
             // IHL pointing past the quote
             let mut q = ipv4_header(1, Ipv4Addr::new(10, 0, 0, 1), Ipv4Addr::new(192, 0, 2, 77), 0, 8);
             q[0] = 0x4f;
